@@ -100,6 +100,8 @@ impl Prop for C09 {
         for pl in [0usize, 1, 16, 31, 33, 48, 64, 100, 1000, 65535 - 96 - 16, 65535 - 96 - 15] { for _ in 0..(if th { 4 } else { 1 }) { v.push(case(&[("surface", "noise".into()), ("len", pl.to_string()), ("mode", "authentic-payload-len".into()), ("seed", rng.next().to_string())])); } }
         // keyring files: valid sections with stray lines of every length 0..160 built from 1-, 2-, 3- and 4-byte characters
         for l in 0..=160usize { for _ in 0..(if th { 6 } else { 2 }) { v.push(case(&[("surface", "keyring".into()), ("len", l.to_string()), ("seed", rng.next().to_string())])); } }
+        // keyring files of unusual BULK, through the binary (work and stack must not grow with what is skipped): long runs of blank lines, of comment lines, of CR LF, one very long line
+        for shape in ["blank-run", "comment-run", "crlf-run", "long-line", "blank-run-invalid"] { v.push(case(&[("surface", "keyring-bulk".into()), ("shape", shape.into()), ("seed", rng.next().to_string())])); }
         for _ in 0..(if th { 6000 } else { 1200 }) { v.push(case(&[("surface", "pkstr".into()), ("seed", rng.next().to_string())])); }
         for _ in 0..(if th { 1500 } else { 300 }) { v.push(case(&[("surface", "skstr".into()), ("seed", rng.next().to_string())])); }
         // CLI argument vectors: every vector of length <= 2 (thorough: a sample of length 3) over the vocabulary, plus random longer ones
@@ -206,6 +208,22 @@ impl Prop for C09 {
                 else if (obs.exit == Some(1)) != obs.error_line() { o.oracle_fail = Some(("error-line-iff-exit-1".into(), format!("{}: exit {:?}, stderr {:?}", what, obs.exit, obs.stderr))); }
                 else if obs.exit == Some(0) { o.oracle_fail = Some(("undecodable-input-is-an-error".into(), format!("{}: exit 0", what))); }
                 else if obs.file("c").is_some() { o.oracle_fail = Some(("no-output-on-usage-error".into(), format!("{}: an output file was written", what))); }
+            }
+            "keyring-bulk" => {
+                use crate::cli::*;
+                let fx = fixtures(); let shape = get(c, "shape");
+                let filler: String = match shape { "comment-run" => "# a comment line\n".repeat(150_000), "crlf-run" => "\r\n".repeat(300_000), "long-line" => format!("# {}\n", "x".repeat(4 << 20)), _ => "\n".repeat(400_000) };
+                let good = keyring(&[(&fx.alice, true), (&fx.bob, true)]);
+                let text = if shape == "blank-run-invalid" { format!("{}[Key]\nName = broken\n{}", filler, filler) } else { format!("{}{}{}", section(&fx.carol, false), filler, good) };
+                let w = World { files: vec![("kr".into(), text.into_bytes()), ("p".into(), b"payload".to_vec())], env: vec![("KESTREL_PASSWORD".into(), fx.alice.pw.into())], stdin: vec![] };
+                let obs = run_kestrel(&w, &sv(&["encrypt", "p", "-t", "bob", "-f", "alice", "-o", "c", "-k", "kr", "--env-pass"])); o.validated += 1;
+                o.nontrivial = Some(format!("keyring-bulk/{}", shape)); o.tags.push(format!("keyring bulk {} -> exit {:?}", shape, obs.exit));
+                o.impl_obs = format!("exit={:?} signal={} timed_out={} {}", obs.exit, obs.signal, obs.timed_out, obs.stderr.trim().chars().take(100).collect::<String>()); o.model_obs = "exit 0 or 1, with an Error: line when 1".into();
+                let what = format!("kestrel encrypt with a keyring of {} ({})", match shape { "comment-run" => "150 000 consecutive comment lines", "crlf-run" => "300 000 consecutive CR LF", "long-line" => "one 4 MiB comment line", _ => "400 000 consecutive blank lines" }, if shape == "blank-run-invalid" { "and an incomplete section" } else { "between valid sections" });
+                if obs.timed_out { o.oracle_fail = Some(("no-hang".into(), format!("{}: still running after 30 s", what))); }
+                else if obs.signal || !matches!(obs.exit, Some(0) | Some(1)) { o.oracle_fail = Some(("exit-0-or-1".into(), format!("{}: exit {:?}, killed by a signal = {}, stderr {:?}", what, obs.exit, obs.signal, obs.stderr.trim().chars().take(160).collect::<String>()))); }
+                else if obs.exit == Some(1) && !obs.error_line() { o.oracle_fail = Some(("error-line-on-failure".into(), format!("{}: exit 1 without an Error: line", what))); }
+                else if shape != "blank-run-invalid" && obs.exit != Some(0) { o.oracle_fail = Some(("valid-keyring-accepted".into(), format!("{}: exit {:?} {}", what, obs.exit, obs.stderr.trim().chars().take(120).collect::<String>()))); }
             }
             "keyring" => {
                 // one or two well-formed sections and a stray line of `len` bytes (after trimming) somewhere among them
